@@ -373,8 +373,8 @@ def mut_alphabet(v, seed):
 
 def bfs_cfg(tier):
     if tier == 'quick':
-        return [('plain', 'a', 2), ('plain', 'a-a', 2), ('rainbow', 'ab', 2), ('plain', '', 2)]
-    return [('plain', 'a', 3), ('plain', 'a-a', 2), ('rainbow', 'ab', 3), ('plain', '', 3), ('rainbow', 'a-a', 2), ('plain', 'ab', 3)]
+        return [('plain', 'a', 2), ('plain', 'a-a', 2), ('rainbow', 'ab', 2), ('plain', '', 2), ('restart1', '', 1), ('restart2', '', 1)]
+    return [('plain', 'a', 3), ('plain', 'a-a', 2), ('rainbow', 'ab', 3), ('plain', '', 3), ('rainbow', 'a-a', 2), ('plain', 'ab', 3), ('restart1', '', 2), ('restart2', '', 2)]
 
 
 def sweep_pool(tier, seed):
@@ -446,16 +446,19 @@ def run_task(task, acc):
         return
     lay, text, depth = bfs_cfg(tier)[task['cfg']]
     part = task['part']
+    R0 = explore.roles(seed)
+    seed_hists = {'restart1': [['plain', 'a-a'], ['apply', R0['W'], 0, 3, True], ['apply', R0['R'], 1, 2, False]],
+                  'restart2': [['plain', 'a-a'], ['apply', R0['R'], 0, 3, True], ['apply', R0['B'], 0, 3, True], ['remove', R0['R'], 0, 1]]}
 
     def gen(v, hh):
         if len(v) > 7:
             return []
         ops = mut_alphabet(v, seed)
-        if len(hh) == 1:
+        if len(hh) == len(h0):
             return ops[part::PARTS]
         return ops
     seen = {}
-    h0 = [[lay, text]]
+    h0 = seed_hists[lay] if lay in seed_hists else [[lay, text]]
     frontier = [h0]
     seen[model.canon_hash(build(h0))] = True
     for d in range(depth):
